@@ -36,8 +36,11 @@ class MoneySys:
         self.convs = []
         for i in range(n):
             c = MoneyConverter(self.eur, lambda: date(2020, 3, 15))
-            c.update(None, [(self.usd, O.dec(RATES[i]), 1),
-                            (self.jpy, O.dec(JPY_RATES[i]), 1)])
+            specs = [(self.usd, O.dec(RATES[i]), 1),
+                     (self.jpy, O.dec(JPY_RATES[i]), 1)]
+            if i == 0:      # only the first converter knows TND
+                specs.append((self.tnd, O.dec('D:3.2'), 1))
+            c.update(None, specs)
             self.convs.append(c)
         self.stack = []        # model: indices, last = most recent
         self.open = []         # harness: open with-blocks (indices)
@@ -151,13 +154,23 @@ class MoneySys:
             except Exception as exc:
                 out.append(('C12:money:cross-uses-most-recent',
                             f"10 USD -> JPY: {type(exc).__name__}: {exc}"))
-            # a pair the converter cannot answer
+            # a pair only converter c0 can answer: the most recent active
+            # converter decides, also when it has no rate
             try:
-                m.convert(self.tnd)
-                out.append(('C12:money:convert-unknown', "EUR -> TND "
-                            "converted without a rate"))
+                r3 = m.convert(self.tnd)
+                if self.stack[-1] != 0:
+                    out.append(('C12:money:older-converter-answers',
+                                f"10 EUR -> TND = {r3!r} although the most "
+                                f"recent converter c{self.stack[-1]} has no "
+                                "TND rate"))
+                elif O.fr(r3.amount) != 32:
+                    out.append(('C12:money:convert-uses-most-recent',
+                                f"10 EUR -> TND = {r3!r}, expected 32"))
             except quantity.UnitConversionError:
-                pass
+                if self.stack[-1] == 0:
+                    out.append(('C12:money:convert-uses-most-recent',
+                                "10 EUR -> TND raised although c0 is the "
+                                "most recent converter"))
             except Exception as exc:
                 out.append(('C12:money:convert-unknown',
                             f"EUR -> TND: {type(exc).__name__}"))
@@ -196,21 +209,37 @@ class GenericSys:
             {},
         ]
         self.tables = table[:n]
-        self.fns = []
-        for t in self.tables:
-            def f(qty, to_unit, t=t, units=self.units):
+        units = self.units
+
+        class Holder:
+            def __init__(self, t):
+                self.t = t
+
+            def convert(self, qty, to_unit):
                 k = (units.index(qty.unit), units.index(to_unit))
-                g = t.get(k)
+                g = self.t.get(k)
                 return None if g is None else g(qty.amount)
-            self.fns.append(f)
+        self.holders = [Holder(t) for t in self.tables]
         self.lst = []
+
+    def fn(self, i):
+        """converter i: a plain function for even i, a *fresh bound method
+        object* (equal, not identical, on every access) for odd i"""
+        if i % 2:
+            return self.holders[i].convert
+        if not hasattr(self, '_plain'):
+            self._plain = {}
+        if i not in self._plain:
+            h = self.holders[i]
+            self._plain[i] = lambda qty, to_unit, h=h: h.convert(qty, to_unit)
+        return self._plain[i]
 
     def key(self):
         return (tuple(self.lst),)
 
     def enabled(self):
         evs = []
-        for i in range(len(self.fns)):
+        for i in range(len(self.holders)):
             evs += [['reg', i], ['rem', i]]
         return evs
 
@@ -218,12 +247,12 @@ class GenericSys:
         out = []
         kind, i = ev
         if kind == 'reg':
-            self.cls.register_converter(self.fns[i])
+            self.cls.register_converter(self.fn(i))
             if i not in self.lst:
                 self.lst.append(i)
         else:
             try:
-                self.cls.remove_converter(self.fns[i])
+                self.cls.remove_converter(self.fn(i))
                 raised = False
             except ValueError:
                 raised = True
@@ -247,9 +276,8 @@ class GenericSys:
         import quantity
         out = []
         got = list(self.cls.registered_converters())
-        want = [self.fns[i] for i in reversed(self.lst)]
-        if len(got) != len(want) or any(a is not b
-                                        for a, b in zip(got, want)):
+        want = [self.fn(i) for i in reversed(self.lst)]
+        if len(got) != len(want) or any(a != b for a, b in zip(got, want)):
             out.append(('C12:generic:registered-list',
                         f"registered_converters() has {len(got)} entries, "
                         f"model {list(reversed(self.lst))}"))
